@@ -8,7 +8,7 @@ import harness as H
 import native
 from interp import Panic, Unsupported, Divergence, Adt, Sink, Ref, deref, as_str, ENUMS
 from models import explore
-from sym import Selector, SymVal, smap
+from sym import Selector, SymVal, smap, Infeasible
 
 
 class Session:
@@ -703,6 +703,11 @@ def c12(tier):
         docs.append(('multi.wsdl', {'multi.wsdl': to_xml(build(w.tree()))}))
         docs.append(('all_emitters.wsdl', corpus_files('all_emitters.wsdl')))
         docs.append(('order.xsd', {k: to_xml(build(v.tree())) for k, v in F.three_ns_doc().items()}))
+        # two namespaces whose abbreviations collide (typ / typ1) are bound on the same root: the numbering must not depend on any map's order
+        docs.append(('versions.xsd', {'versions.xsd': '<xs:schema xmlns:xs="http://www.w3.org/2001/XMLSchema" xmlns:old="http://example.com/orders/v1/types" '
+                                      'xmlns:cur="http://example.com/orders/v2/types" targetNamespace="http://example.com/orders/v2/types" elementFormDefault="qualified">'
+                                      '<xs:complexType name="OrderType"><xs:sequence><xs:element name="Id" type="xs:string"/><xs:element name="Previous" type="cur:OrderRefType" minOccurs="0"/>'
+                                      '</xs:sequence></xs:complexType><xs:complexType name="OrderRefType"><xs:sequence><xs:element name="Id" type="xs:string"/></xs:sequence></xs:complexType></xs:schema>'}))
         if tier == 'thorough':
             for rel in ['resources/number_services/number_services.wsdl', 'zeep-lib/test-data/tempconverter.wsdl']:
                 docs.append(repo_files(rel))
@@ -753,23 +758,32 @@ def c12(tier):
         from xmltree import perms as _perms
         order = Selector('registration_order', [tuple(['a.xsd', 'b.xsd', 'c.xsd', 'C.xsd'][i] for i in p) for p in _perms(4)])
         repeat = Selector('calls', [1, 2, 3])
+        # the same file set with one more import in a.xsd that names an unregistered file: every call must fail the same way
+        fa_broken = Sch('urn:a', fa.components, prefixes=fa.prefixes, imports=list(fa.imports) + [('urn:d', 'missing.xsd')])
+        files3_broken = dict(files3)
+        files3_broken['a.xsd'] = to_xml(build(fa_broken.tree()))
+        broken = Selector('file_set', ['complete', 'import-of-unregistered-file'])
         s.scenarios += 1
 
         def entry(m):
             m.pc.append(order.domain)
             m.pc.append(repeat.domain)
+            m.pc.append(broken.domain)
             o = m.concretize(order.sym())
             n = m.concretize(repeat.sym())
-            ftr = H.make_files(m, files3, 'a.xsd', order=list(o))
+            bk = m.concretize(broken.sym()) != 'complete'
+            if bk and o != order.options[0]:
+                raise Infeasible()          # the failing file set is explored for one registration order
+            ftr = H.make_files(m, files3_broken if bk else files3, 'a.xsd', order=list(o))
             outs = []
             for i in range(n):
                 r = H.read_xml(m, ftr)
                 if r.variant != 0:
-                    outs.append(('read_err', r.fields[0]))
+                    outs.append(('read_err', ENUMS.get('WriterError', ['?'] * 64)[r.fields[0].variant] if isinstance(r.fields[0], Adt) else 'error'))
                     continue
                 r2, sink = H.write_xml(m, r.fields[0])
                 outs.append(('ok', H.rope_text(m, sink)) if r2.variant == 0 else ('write_err', None))
-            return (o, n, outs)
+            return (o, n, outs, bk)
         res = explore(lambda: H.machine(ctx), entry)
         s.count(res)
         if len(res) > 1:
@@ -781,10 +795,11 @@ def c12(tier):
             if out[0] != 'ok':
                 s.rep.inconc('c12 history scenario: %s' % (out[1],))
                 continue
-            o, n, outs = out[1]
-            by_order.setdefault(outs[0], []).append(o)
-            if any(x != outs[0] for x in outs[1:]) and hist_bad is None:
-                hist_bad = (o, n, outs)
+            o, n, outs, bk = out[1]
+            if not bk:
+                by_order.setdefault(outs[0], []).append(o)
+            if any(x != outs[0] for x in outs[1:]) and (hist_bad is None or (bk and not hist_bad[3])):
+                hist_bad = (o, n, outs, bk)
         s.samples.append(dict(check='registration-order x call-history', paths=len(res), distinct_first_outputs=len(by_order),
                               symbolic='order of Files::new/add over all 24 permutations of 4 files (two names differ by case only); 1..3 read_xml+write_xml calls on the same FilesToRead'))
         if len(by_order) > 1:
@@ -805,24 +820,28 @@ def c12(tier):
             else:
                 s.rep.inconc('ENCODING-MISMATCH registration order: native outputs agree')
         if hist_bad is not None:
-            o, n, outs = hist_bad
+            o, n, outs, bk = hist_bad
+            fset = files3_broken if bk else files3
             d = tempfile.mkdtemp(prefix='zeep-verif-c12.')
             try:
-                write_files(d, files3)
+                write_files(d, fset)
                 rc, out_, _ = native.run_driver(driver, d, 'a.xsd', os.path.join(d, '__o'), order=list(o), repeat=n)
                 nat = [open(os.path.join(d, '__o.%d' % i)).read() for i in range(n) if os.path.exists(os.path.join(d, '__o.%d' % i))]
             finally:
                 rmtree(d)
             s.replays += 1
-            rdir = save_replay('C12', 'call_history', dict(list(files3.items()) + [
-                ('finding.txt', 'call %d on the same FilesToRead gives a different result than call 1 (order %s)\nnative driver: %s' % (n, o, out_)),
+            rdir = save_replay('C12', 'call_history', dict(list(fset.items()) + [
+                ('finding.txt', 'call %d on the same FilesToRead gives a different result than call 1 (order %s, file set %s)\nnative driver: %s' % (n, o, 'with an import of an unregistered file' if bk else 'complete', out_)),
                 ('replay.sh', '%s gen . a.xsd out --repeat %d\n' % (driver, n))]))
-            if len(set(nat)) > 1 or 'ERR' in out_ or 'PANIC' in out_:
-                s.rep.violation('c12/call-history', 'repeating read_xml on the same FilesToRead changes the output (call %d differs from call 1)' % n, rdir)
+            # per-call outcome lines of the native driver, run index and write counts removed
+            lines = [re.sub(r'^RUN \d+: ', '', l) for l in out_.split('\n') if l.startswith('RUN ')]
+            kinds = [l.split(' ')[0] for l in lines]
+            if len(set(nat)) > 1 or len(set(kinds)) > 1 or (not bk and ('ERR' in out_ or 'PANIC' in out_)):
+                s.rep.violation('c12/call-history' + ('/after-a-failed-call' if bk else ''), 'repeating read_xml on the same FilesToRead changes the result (call %d differs from call 1: %s)' % (n, kinds), rdir)
             else:
                 s.rep.inconc('ENCODING-MISMATCH call history: native outputs agree: %s' % out_)
-    return run_e2('C12', tier, body, bounds='(i) all iteration orders of every HashMap with <= 3 entries on a generated 2-operation (thorough: 3) WSDL with a two-part message and '
-                  'the all-emitters WSDL; (ii) all 24 registration orders of a 3-file import chain plus an unrelated file whose name differs from another by case only x (iii) call histories of length 1..3 on the same FilesToRead. '
+    return run_e2('C12', tier, body, bounds='(i) all iteration orders of the first 4 HashMaps / HashSets with 2..3 entries iterated per run on a generated 2-operation (thorough: 3) WSDL with a two-part message and '
+                  'the all-emitters WSDL; (ii) all 24 registration orders of a 3-file import chain plus an unrelated file whose name differs from another by case only x (iii) call histories of length 1..3 on the same FilesToRead, also for a file set whose generation fails (import of an unregistered file). '
                   'Outside: maps with more entries, directory enumeration order of the CLI (covered by (ii) through Files::add order).',
                   extra_assumptions=['HashMap contract: iteration order is arbitrary but fixed while the map is not modified; each map gets its own order',
                                      'replay of hash-seed findings is statistical: fresh native processes until two outputs differ (<= 48 runs)'])
